@@ -45,11 +45,11 @@ def _case(draw):
     if draw(st.integers(0, 7)) == 0:
         req1["s"] = None  # default step = R/10
     return {"shot": spec, "req": [req1, req2], "h": draw(st.sampled_from([0.5, 0.5, 0.25, 1.0])),
-            "cut": draw(st.floats(0.15, 0.95))}
+            "cut": draw(st.floats(0.15, 0.95)), "prior": draw(gen.prior())}
 
 
-def _fire(case, req):
-    calc = build.calculator({"max_calc_step_size_feet": case["h"]})
+def _fire(case, req, prior=None):
+    calc = build.calculator({"max_calc_step_size_feet": case["h"]}, prior=prior)
     sh = build.shot(case["shot"])
     return build.fire(calc, sh, req["R"], req["s"], extra=req["extra"], time_step=req["ts"])
 
@@ -74,7 +74,10 @@ def _at(rows, m):
 def check(case):
     r = Res()
     req1, req2 = case["req"]
-    rows1, e1 = _fire(case, req1)
+    # the first request may run on a calculator that has been used before (for another shot, with other recording options)
+    rows1, e1 = _fire(case, req1, case.get("prior"))
+    if case.get("prior"):
+        r.label("calculator-used-before:" + case["prior"])
     rows2, e2 = _fire(case, req2)
     s1 = req1["s"] if req1["s"] is not None else req1["R"] / 10.0
     s2 = req2["s"]
